@@ -1,8 +1,8 @@
 """C13 -- adaptation follows acceptance in the documented direction and then stops.
 
 proof:   EpsieProps/C13.lean over EpsieModel/Adapt.lean + the clock of EpsieModel/Proposal.lean
-         (C13_gain_pos_at, C13_gain_pos_veitch, C13_veitch_dir, C13_ss_dir_partial,
-         C13_ss_narrows_below_cap, C13_at_dir, C13_eig_dir, C13_vmf_dir, the *_sustained_*
+         (C13_gain_pos_at, C13_gain_pos_veitch, C13_veitch_dir, C13_ss_dir,
+         C13_ss_narrows, C13_ss_widens_within_cap, C13_ss_sustained_reject, C13_at_dir, C13_eig_dir, C13_vmf_dir, the *_sustained_*
          theorems, C13_window_exact, C13_one_update_per_clock_tick, C13_frozen_after_window,
          C13_fixed_kernel, C13_own_history_only, ...)
 tie:     suite `adapt` (harness/adapt.py + lean/DriverAdapt.lean): all 16 adaptive classes and
